@@ -280,6 +280,21 @@ class Store:
                 'reopens': self.reopens,
                 'ver': {k: list(v) for k, v in self.ver.items()}}
 
+    def update_with_conn_fault(self, t, run, i, contents, n, kind):
+        '''update() during which the n-th round trip to the database server
+        breaks once; returns (update()'s result or None when it raised,
+        whether the fault fired)'''
+        rig.CONN_FAULT[0] = [n, kind]
+        try:
+            try:
+                res = self.update(t, run, i, contents)
+            except OSError:
+                res = None
+        finally:
+            fired = rig.CONN_FAULT[0] is None
+            rig.CONN_FAULT[0] = None
+        return res, fired
+
     def load(self, t, run, i, held=None):
         '''Dataset.load(); returns {(j,k): ('untouched'|content canon)}'''
         if held is not None:
